@@ -12,7 +12,7 @@ EXPLANATION = ("static analysis (MIR abstract interpretation): every penalty tra
                "recipients are farm owners passing the active-farm filter or the fee collector; with no active farm owner the fee "
                "collector receives the same value as the total; round-down only; penalty shares are paid over the de-duplicated owner set")
 ASSUMPTIONS = ["<= 90% as a number, monotone decay and the split inequality are arithmetic facts not decided here"]
-TECHNIQUE = "static analysis: operator-class provenance (min/cap, rounding), guard cut-sets, recipient provenance, constants"
+TECHNIQUE = "static analysis: operator-class provenance (min/cap, rounding), guard cut-sets, recipient provenance, constants, query-argument provenance (expiry epoch), enumeration bound, loop early-exit lint"
 LEVEL_TEXT = "Structural obligations over all paths of ManagePosition::Withdraw (and, best effort, of the penalty helper)."
 LEVEL_NOTE = "Not decided: numeric bound, decay monotonicity, n*floor(x/n) <= x."
 FM = "farm_manager"
